@@ -541,6 +541,10 @@ class WalText:
         if r < 0.50:
             return ('atom', self.integer()[0])
         if r < 0.58 and self.floats:
+            if rng.random() < 0.25:
+                # a double with 16 or 17 significant digits, written the way Python prints it (positional in this range)
+                t = repr(rng.uniform(-1000.0, 1000.0) if rng.random() < 0.7 else rng.random() / 3)
+                return ('atom', t if 'e' not in t else '0.30000000000000004')
             return ('atom', rng.choice(['1.5', '-0.25', '3.', '0.0', '10.125', '+2.5', '123456.789', '0.1', '-7.']))
         if r < 0.66:
             return ('atom', rng.choice(['#t', '#f', 'true', 'false']))
